@@ -21,7 +21,7 @@ from ..vloop import HarnessError
 from ..world import ConnWorld
 
 OMIT = object()
-VERSIONS = [(1, 0), (1, 1), (1, 2), (1, 3), (1, 4), (1, 5), (1, 10)]
+VERSIONS = [(1, 0), (1, 1), (1, 2), (1, 3), (1, 4), (1, 5), (1, 10), (2, 0), (2, 2), (2, 4)]
 KEYS = [0, 1, 0x12345678, 2**32 - 1]
 
 
@@ -107,6 +107,31 @@ def specs() -> dict[str, dict[str, Any]]:
 
 
 VERSION_SENSITIVE = {"cover_command", "climate_command"}
+
+
+def run_ms_sweep(version: tuple[int, int]) -> dict[str, Any]:
+    """Every whole millisecond 0..10 s (and a sparse tail) for the two duration arguments of light_command."""
+    env.load()
+    s = Session(version)
+    viol: list[tuple[str, str, Any]] = []
+    calls = 0
+    try:
+        values = [k / 1000.0 for k in range(0, 10001)] + [k / 1000.0 for k in range(10007, 4000000, 9973)] + [k + 0.0005 for k in (0, 1, 7)]
+        for arg in ("transition_length", "flash_length"):
+            for v in values:
+                frames, err, _w = s.call("light_command", {"key": 1, arg: v})
+                calls += 1
+                if err is not None or len(frames) != 1:
+                    viol.append((f"light_command:{arg}:ms-sweep:frames", f"light_command({arg}={v}) wrote {frames!r} (error {err})", {"arg": arg, "value": v}))
+                    break
+                got = getattr(frames[0][1], arg)
+                if abs(got - v * 1000.0) > 0.5 + 1e-6 or not getattr(frames[0][1], "has_" + arg):
+                    viol.append((f"light_command:{arg}:milliseconds", f"light_command({arg}={v!r}) sent {arg}={got} ms, nearest whole millisecond is "
+                                 f"{int(v * 1000 + 0.5)}", {"arg": arg, "value": v}))
+                    break
+    finally:
+        s.close()
+    return {"method": "light_command(ms sweep)", "version": version, "calls": calls, "nontrivial": calls, "viol": viol}
 
 
 class Session:
@@ -390,6 +415,8 @@ def _job(j: tuple[Any, ...]) -> dict[str, Any]:
         return run_services(j[1])
     if j[0] == "cam":
         return run_camera(j[1])
+    if j[0] == "ms":
+        return run_ms_sweep(j[1])
     return run_method(j[1:])
 
 
@@ -435,15 +462,16 @@ def run(tier: str, seed: int) -> Result:
     for method, spec in sp.items():
         k = len(spec["opt"])
         full_ok = 3**k <= 10**7
-        versions = VERSIONS if (method in VERSION_SENSITIVE or not quick) else [(1, 0), (1, 10)]
+        versions = VERSIONS if (method in VERSION_SENSITIVE or not quick) else [(1, 0), (1, 10), (2, 0)]
         for v in versions:
-            mode = "full" if full_ok and (v in ((1, 0), (1, 10), (1, 4), (1, 5), (1, 1)) or not quick or k <= 6) else "subsets"
+            mode = "full" if full_ok and (v in ((1, 0), (1, 10), (1, 4), (1, 5), (1, 1), (2, 0)) or not quick or k <= 6) else "subsets"
             if method == "light_command" and v not in (((1, 10),) if quick else ((1, 0), (1, 10))):
                 mode = "subsets"  # 3^12 twice is enough: light has no version-dependent encoding
             jobs.append(("m", method, v, mode))
     for v in VERSIONS:
         jobs.append(("svc", v))
     jobs.append(("cam", (1, 10)))
+    jobs.append(("ms", (1, 10)))
     jobs.sort(key=lambda j: 0 if (j[0] == "m" and j[1] == "light_command" and j[3] == "full") else 1)
     ctx = mp.get_context("fork")
     with ctx.Pool(min(16, os.cpu_count() or 1)) as pool:
@@ -455,7 +483,7 @@ def run(tier: str, seed: int) -> Result:
         per_method[r["method"]] = per_method.get(r["method"], 0) + r["calls"]
         for k, clause, detail in r["viol"]:
             res.add(k, clause, detail)
-    if calls < 20000 or len(per_method) < 18:
+    if calls < 20000 or len(per_method) < 19:
         raise HarnessError(f"vacuous: {calls} calls over {len(per_method)} methods")
     res.coverage = {
         "evaluations": calls + spec_evals,
